@@ -41,6 +41,12 @@ CLAIMED["C06"] = {
     "note": "trusts: endpoint pairs kept within 250 years so the float-derived sub-second components stay exact (C05's bound); rebuild is asserted for a <= b only, as the statement says; one open known finding (compiled backend, mixed-zone pairs whose UTC shift changes the date) is suppressed by signature only",
 }
 
+CLAIMED["C18"] = {
+    "text": "Seeded search over interleavings of diff_for_humans()/format_diff()/in_words()/locale format tokens (DateTime, Date, Time, Duration, Interval; all 27 locales) under a simulated clock that the nemesis moves between and during calls, set_locale flips, mock-local-zone changes and restarts; instances are placed at clock +- deltas straddling every rounding threshold and plural class. Each phrase must equal the cold re-execution under one admissible (clock, locale, local zone) assignment, be non-empty and fully substituted, match a template of the correct direction taken from the locale's own data (not from DifferenceFormatter), carry no direction marker when absolute, and its count x unit must be within one unit of the elapsed time to the simulated clock.",
+    "ref": "DESIGN.md §5 C18",
+    "note": "trusts: time_machine as the clock seam (C entry points patched), locale data files as template source; nominal unit lengths (365.2425 d year, 30.44 d month, 2% slack); Time.diff_for_humans is decided by L1 only; two open known finding classes (same-zone offset change, compiled mixed-zone date shift) are suppressed by signature only",
+}
+
 NOT_APPLICABLE = {
     "C03": "pure function of its arguments and immutable zone data: no clock, shared mutable slot, configuration or I/O in add/subtract with fixed units; nothing for a scheduler or fault injector to vary",
     "C04": "pure function of its arguments (calendar arithmetic + construction rules); Duration fields it reads are written once in __new__; no schedule, clock or fault dependence",
@@ -60,10 +66,10 @@ ALL = ["C%02d" % i for i in range(1, 21)]
 
 # designed as simulation targets (DESIGN.md §5) but whose check is not registered yet
 PENDING = {p: "simulation target per DESIGN.md §5, check still under construction in this commit (not claimed yet)"
-           for p in ("C01", "C08", "C18")}
+           for p in ("C01", "C08")}
 
 FIX_COMMITS = ["0cac821 (C09 lazy-slot race)", "c2f908d (previous() never terminates across a skipped calendar day; C12/C16)",
-               "2c83944 (next() drifts to 01:00 after a skipped midnight; C16)", "6249586 (C12 week configuration read twice)", "1273e62 (C16 first_of/last_of depend on calendar.setfirstweekday())", "9fab684 (C02 mock local zone read twice)", "fc92ad3 (C06 precise_diff full-month shortcut, Python + Rust)"]
+               "2c83944 (next() drifts to 01:00 after a skipped midnight; C16)", "6249586 (C12 week configuration read twice)", "1273e62 (C16 first_of/last_of depend on calendar.setfirstweekday())", "9fab684 (C02 mock local zone read twice)", "fc92ad3 (C06 precise_diff full-month shortcut, Python + Rust)", "b63f456 (Interval.__init__ dropped endpoint fold; C18)", "a0e6037 (zh before/after templates; C18)", "5ef6d18 (nl week_data misplaced; C18)"]
 
 
 def main():
